@@ -53,6 +53,13 @@ def triggs (d : Nat) (x g1 g2 : α) (R : Nat → α) (J : Nat → Nat → α) : 
      fun a l => sJ a l - (al / x) * sumN d (fun b => R a * R b * sJ b l)⟩
   else ⟨sR, sJ⟩
 
+/-- the masked branch of `Triggs.forward` with the number `al` in the place of `alpha` (pass 3: the identities are proved
+for *every* such `al`, the gradient one even without `al` being a root — see `Proofs/Props/C09.lean`) -/
+def triggsAlpha (d : Nat) (x g1 al : α) (R : Nat → α) (J : Nat → Nat → α) : Out α :=
+  let se := Scalar.sqrt g1
+  ⟨fun a => se * R a / (k 1 - al),
+   fun a l => se * J a l - (al / x) * sumN d (fun b => R a * R b * (se * J b l))⟩
+
 /-- `FastTriggs(kernel)(R, J)` on one item, `ρ1 = ρ'` -/
 def fastOf (ρ1 : α → α) (d : Nat) (R : Nat → α) (J : Nat → Nat → α) : Out α :=
   fast (ρ1 (normSq d R)) R J
@@ -73,6 +80,32 @@ def JtJ (N d : Nat) (out : Nat → Out α) (l m : Nat) : α :=
 /-- `kernel(r.square().sum(-1)).sum()` for one residual tensor of `N` items -/
 def lossOne (ρ : α → α) (N d : Nat) (R : Nat → Nat → α) : α :=
   sumN N fun i => ρ (normSq d (R i))
+
+/-! ## Flat memory layout of the real call (pass 3)
+
+The code receives `R` of shape `(…, d)` (row-major: item `i`, component `a` at flat position `i*d + a`) and `J` of shape
+`(N*d, p)` (row `i*d + a`); `sj = s.expand_as(R).reshape(-1, 1)` scales row `r` of `J` by the factor of item `r / d`. -/
+
+/-- item / component of flat position `r` -/
+def itemOf (d r : Nat) : Nat := r / d
+def compOf (d r : Nat) : Nat := r % d
+
+/-- the items of a flat residual / Jacobian -/
+def unflatR (d : Nat) (Rf : Nat → α) : Nat → Nat → α := fun i a => Rf (i * d + a)
+def unflatJ (d : Nat) (Jf : Nat → Nat → α) : Nat → Nat → Nat → α := fun i a l => Jf (i * d + a) l
+
+/-- `FastTriggs` / `Triggs` on the flat tensors: flat residual `(N*d)` and flat Jacobian rows `(N*d) × p` -/
+def fastFlat (ρ1 : α → α) (d : Nat) (Rf : Nat → α) (Jf : Nat → Nat → α) : (Nat → α) × (Nat → Nat → α) :=
+  (fun r => (fastOf ρ1 d (unflatR d Rf (itemOf d r)) (unflatJ d Jf (itemOf d r))).R (compOf d r),
+   fun r l => (fastOf ρ1 d (unflatR d Rf (itemOf d r)) (unflatJ d Jf (itemOf d r))).J (compOf d r) l)
+
+def triggsFlat (ρ1 ρ2 : α → α) (d : Nat) (Rf : Nat → α) (Jf : Nat → Nat → α) : (Nat → α) × (Nat → Nat → α) :=
+  (fun r => (triggsOf ρ1 ρ2 d (unflatR d Rf (itemOf d r)) (unflatJ d Jf (itemOf d r))).R (compOf d r),
+   fun r l => (triggsOf ρ1 ρ2 d (unflatR d Rf (itemOf d r)) (unflatJ d Jf (itemOf d r))).J (compOf d r) l)
+
+/-- `(J'ᵀ R')_l` computed on the flat outputs, as the linear solver sees them: a plain sum over the `N*d` rows -/
+def flatJtR (rows : Nat) (out : (Nat → α) × (Nat → Nat → α)) (l : Nat) : α :=
+  sumN rows fun r => out.2 r l * out.1 r
 
 /-! ## Kernel / corrector plumbing of `GaussNewton.__init__`, `LevenbergMarquardt.__init__`,
 `RobustModel.__init__`, `RobustModel.loss` and the corrector call in `step`
@@ -149,6 +182,35 @@ def lossTotal {κ : Type} (ρ : KSel κ → α → α) (ks : List (KSel κ)) (nr
   sumN nres fun j =>
     match lossKernel ks nres j with
     | some c => lossOne (ρ c) (res j).1 (res j).2.1 (res j).2.2
+    | none => k 0
+
+/-! ## The system one optimiser step hands to the solver (pass 3)
+
+`step` corrects residual tensor `j` with `stepCorrector cs j` and stacks the results (`normalize_RWJ`: `torch.cat`).
+`corr c` interprets a selected corrector as `(ρ', ρ'')` of its kernel together with its kind (`true` = Triggs). -/
+
+/-- interpretation of a selected corrector: `none` = `Trivial` (identity), `some (triggs?, ρ', ρ'')` -/
+abbrev CorrSem (α : Type) := Option (Bool × (α → α) × (α → α))
+
+def applyCorr (c : CorrSem α) (d : Nat) (R : Nat → α) (J : Nat → Nat → α) : Out α :=
+  match c with
+  | none => ⟨R, J⟩
+  | some (false, ρ1, _) => fastOf ρ1 d R J
+  | some (true, ρ1, ρ2) => triggsOf ρ1 ρ2 d R J
+
+/-- semantics of the correctors an optimiser creates itself: `FastTriggs` of the interpreted kernel (`ρ1 c = ρ'`,
+`ρ2 c = ρ''` of the selected kernel `c`) -/
+def autoSem {κ γ : Type} (ρ1 ρ2 : KSel κ → α → α) : CSel κ γ → CorrSem α
+  | .auto c => some (false, ρ1 c, ρ2 c)
+  | _ => none
+
+/-- `(J'ᵀ R')_l` of the stacked system over `nres` residual tensors `res j = (N_j, d_j, R_j, J_j)`; a residual whose
+corrector index is out of range (`IndexError` in the code) contributes nothing here — see `short_kernel_list_fails` -/
+def stepJtR {κ γ : Type} (sem : CSel κ γ → CorrSem α) (cs : List (CSel κ γ)) (nres : Nat)
+    (res : Nat → Nat × Nat × (Nat → Nat → α) × (Nat → Nat → Nat → α)) (l : Nat) : α :=
+  sumN nres fun j =>
+    match stepCorrector cs j with
+    | some c => JtR (res j).1 (res j).2.1 (fun i => applyCorr (sem c) (res j).2.1 ((res j).2.2.1 i) ((res j).2.2.2 i)) l
     | none => k 0
 
 end PP.Corrector
